@@ -103,7 +103,7 @@ def run_case(task):
                 res['violations'].append(dict(kind='domain', what=what, detail='', inputs=inp, native=None))
         for v in ex.violations:
             inp = ex.model_inputs(v.model, v.inputs) if v.model is not None else []
-            res['violations'].append(dict(kind=v.kind, what=v.what, detail=v.detail + (' | ' + '; '.join(x for x in v.log if x.startswith('writes')) if any(x.startswith('writes') for x in v.log) else ''), inputs=inp, native=None))
+            res['violations'].append(dict(_obj=v, kind=v.kind, what=v.what, detail=v.detail + (' | ' + '; '.join(x for x in v.log if x.startswith('writes')) if any(x.startswith('writes') for x in v.log) else ''), inputs=inp, native=None))
         if ob.get('memory_only'):          # safety/termination obligation run in an abstract arithmetic mode: functional assertions are not meaningful there
             res['violations'] = [v for v in res['violations'] if v['kind'] == 'memory']
             res['undecided'] = [u for u in res['undecided'] if 'solver unknown' not in str(u[1])]
@@ -125,6 +125,20 @@ def run_case(task):
                     v['reproduced'] = None        # write-set assertions are only observable in the executor (the native twin records no stores)
                 elif v['kind'] == 'assert':
                     v['reproduced'] = ('assert %s 0' % v['what']) in lines
+                    if not v['reproduced'] and ex.mode == 'real' and getattr(v.get('_obj'), 'query', None) is not None:
+                        # the solver's model may be numerically degenerate in doubles (denormal sigma, 1e300 ...): look for a better conditioned one
+                        import z3
+                        obj = v['_obj']; reals = [sym for (_, kind, sym) in obj.inputs if kind == 'f64' and z3.is_real(sym)]
+                        for lo, hi, integral in ((1e-3, 1e6, False), (1, 1e4, True), (1e-2, 1e3, False)):
+                            sol = z3.Solver(); sol.set('timeout', 30000); sol.add(*obj.query)
+                            for x in reals:
+                                sol.add(x >= -hi, x <= hi, z3.Or(x == 0, x >= lo, x <= -lo))
+                                if integral: sol.add(z3.IsInt(x))
+                            if sol.check() != z3.sat: continue
+                            inp2 = ex.model_inputs(sol.model(), obj.inputs)
+                            lines2 = run_native(native, ob['entry'], inp2, case, scratch, 'cex2')
+                            if ('assert %s 0' % v['what']) in lines2:
+                                v['inputs'] = inp2; v['native'] = lines2[-12:]; v['reproduced'] = True; v['detail'] = (v['detail'] + ' | better conditioned counterexample after the first model did not reproduce natively').strip(' |'); break
                 elif v['kind'] == 'memory':
                     v['reproduced'] = None        # native run cannot confirm out-of-bounds accesses without a sanitizer
                 else: v['reproduced'] = None
@@ -140,6 +154,7 @@ def run_case(task):
                     res['validation_mismatch'].append(dict(inputs=[(a, b, c if c == c else 'nan') for a, b, c, _ in inputs], native=nat[-8:], engine=eng[-8:]))
         for inputs, outcome, outs in ex.completed_models[:2]:
             res['samples'].append(dict(obligation=oid, case=list(case), path_outcome=outcome, inputs={a: d for a, b, c, d in inputs}))
+        for v in res['violations']: v.pop('_obj', None)
         if res['violations']: res['verdict'] = 'VIOLATED'
     except build.BuildError as e:
         res['verdict'] = 'ENCODING-ERROR'; res['undecided'].append(('build', str(e)[:1500]))
@@ -147,6 +162,7 @@ def run_case(task):
         res['verdict'] = 'UNDECIDED'; res['undecided'].append(('memory', 'worker exceeded its memory cap'))
     except Exception as e:
         res['verdict'] = 'ENCODING-ERROR'; res['undecided'].append(('exception', traceback.format_exc()[-1500:]))
+    for v in res.get('violations', []): v.pop('_obj', None)
     res['wall'] = round(time.time() - t0, 2)
     return res
 
